@@ -204,7 +204,7 @@ theorem reconstructL_volumes_spec {β ℓ} (sizeOf : Nat → Option Nat) (zero :
 
 /-- the `k`-th yield carries the first-batch loss dicts of volumes `0 … k` -/
 theorem yieldsFrom_losses {β ℓ} (d : ℓ) :
-    ∀ (vs : List (Nat × List (List (β × Int) × ℓ))) (ls : List ℓ) (k : Nat) (hk : k < vs.length),
+    ∀ (vs : List (Nat × List (List (β × Int) × ℓ))) (ls : List ℓ) (k : Nat) (_hk : k < vs.length),
       ((yieldsFrom ls vs d)[k]?).map (·.2.1) =
         some (ls ++ (vs.take (k + 1)).map fun v => (v.2.head?.map (·.2)).getD d) := by
   intro vs
@@ -221,42 +221,60 @@ theorem yieldsFrom_losses {β ℓ} (d : ℓ) :
 
 /-! ### delivery orders -/
 
-theorem windowOrdersAux_one {α} : ∀ (fuel : Nat) (xs : List α), xs.length ≤ fuel →
-    windowOrdersAux 1 fuel xs = [xs] := by
+theorem perm_cons_eraseIdx {α} {l : List α} {i : Nat} (h : i < l.length) : l.Perm (l[i] :: l.eraseIdx i) := by
+  induction l generalizing i with
+  | nil => simp at h
+  | cons a l ih =>
+    cases i with
+    | zero => simp
+    | succ i =>
+      simp only [List.getElem_cons_succ, List.eraseIdx_cons_succ]
+      have := ih (i := i) (by simpa using h)
+      exact (List.Perm.cons a this).trans (List.Perm.swap _ _ _)
+
+theorem windowOrdersAux_one {α} : ∀ (fuel : Nat) (x : α) (rest : List α), rest.length + 1 ≤ fuel →
+    windowOrdersAux fuel [x] rest = [x :: rest] := by
   intro fuel
   induction fuel with
-  | zero =>
-    intro xs h
-    have : xs = [] := List.eq_nil_of_length_eq_zero (by omega)
-    subst this; rfl
+  | zero => intro x rest h; omega
   | succ fuel ih =>
-    intro xs h
-    cases xs with
-    | nil => simp [windowOrdersAux]
-    | cons x xs =>
-      have h1 : min 1 (x :: xs).length = 1 := by simp only [List.length_cons]; omega
-      simp only [windowOrdersAux, List.isEmpty_cons, Bool.false_eq_true, if_false, h1]
-      simp [ih xs (by simpa using h)]
+    intro x rest h
+    simp only [windowOrdersAux, List.isEmpty_cons, Bool.false_eq_true, if_false, List.length_cons,
+      List.length_nil]
+    cases rest with
+    | nil =>
+      cases fuel with
+      | zero => simp [windowOrdersAux, List.range_succ]
+      | succ f => simp [windowOrdersAux, List.range_succ]
+    | cons y ys =>
+      have := ih y ys (by simpa using h)
+      simp [List.range_succ, this]
 
 /-- with one batch in flight the loader can only deliver in order -/
-theorem windowOrders_one {α} (xs : List α) : windowOrders 1 xs = [xs] :=
-  windowOrdersAux_one xs.length xs (Nat.le_refl _)
+theorem windowOrders_one {α} (xs : List α) : windowOrders 1 xs = [xs] := by
+  cases xs with
+  | nil => simp [windowOrders, windowOrdersAux]
+  | cons x xs =>
+    simp only [windowOrders, List.take_succ_cons, List.take_zero, List.drop_succ_cons, List.drop_zero]
+    exact windowOrdersAux_one _ x xs (by simp)
 
-theorem windowOrdersAux_perm {α} (k : Nat) : ∀ (fuel : Nat) (xs : List α), xs.length ≤ fuel →
-    ∀ ys ∈ windowOrdersAux k fuel xs, ys.Perm xs := by
+theorem windowOrdersAux_perm {α} : ∀ (fuel : Nat) (infl rest : List α), infl.length + rest.length ≤ fuel →
+    (infl = [] → rest = []) → ∀ ys ∈ windowOrdersAux fuel infl rest, ys.Perm (infl ++ rest) := by
   intro fuel
   induction fuel with
   | zero =>
-    intro xs h ys hy
-    have : xs = [] := List.eq_nil_of_length_eq_zero (by omega)
-    subst this
+    intro infl rest h _ ys hy
+    have h1 : infl = [] := List.eq_nil_of_length_eq_zero (by omega)
+    have h2 : rest = [] := List.eq_nil_of_length_eq_zero (by omega)
+    subst h1 h2
     simp [windowOrdersAux] at hy
     subst hy; exact List.Perm.refl _
   | succ fuel ih =>
-    intro xs h ys hy
-    cases hx : xs with
+    intro infl rest h hinv ys hy
+    cases hx : infl with
     | nil =>
-      subst hx
+      have := hinv hx
+      subst hx this
       simp [windowOrdersAux] at hy
       subst hy; exact List.Perm.refl _
     | cons x0 xs0 =>
@@ -264,33 +282,51 @@ theorem windowOrdersAux_perm {α} (k : Nat) : ∀ (fuel : Nat) (xs : List α), x
       simp only [windowOrdersAux, List.isEmpty_cons, Bool.false_eq_true, if_false, List.mem_flatMap,
         List.mem_range] at hy
       obtain ⟨i, hi, hy⟩ := hy
-      have hil : i < (x0 :: xs0).length := by omega
-      rw [List.getElem?_eq_getElem hil] at hy
+      rw [List.getElem?_eq_getElem hi] at hy
       simp only [List.mem_map] at hy
       obtain ⟨zs, hz, rfl⟩ := hy
-      have hlen : ((x0 :: xs0).eraseIdx i).length ≤ fuel := by
-        rw [List.length_eraseIdx_of_lt hil]; simp only [List.length_cons] at h ⊢; omega
-      have hp := ih _ hlen zs hz
-      exact (List.Perm.cons _ hp).trans (List.perm_cons_erase_idx hil).symm
-where
-  List.perm_cons_erase_idx {α} {l : List α} {i : Nat} (h : i < l.length) : l.Perm (l[i] :: l.eraseIdx i) := by
-    induction l generalizing i with
-    | nil => simp at h
-    | cons a l ih =>
-      cases i with
-      | zero => simp
-      | succ i =>
-        simp only [List.getElem_cons_succ, List.eraseIdx_cons_succ]
-        have := ih (i := i) (by simpa using h)
-        exact (List.Perm.cons a this).trans (List.Perm.swap _ _ _)
+      have hlen : ((x0 :: xs0).eraseIdx i ++ rest.take 1).length + (rest.drop 1).length ≤ fuel := by
+        rw [List.length_append, List.length_eraseIdx_of_lt hi, List.length_take, List.length_drop]
+        simp only [List.length_cons] at h ⊢; omega
+      have hinv' : (x0 :: xs0).eraseIdx i ++ rest.take 1 = [] → rest.drop 1 = [] := by
+        intro e
+        have := (List.append_eq_nil_iff.mp e).2
+        cases rest with
+        | nil => rfl
+        | cons a r => simp at this
+      have hp := ih _ _ hlen hinv' zs hz
+      have h1 : ((x0 :: xs0).eraseIdx i ++ rest.take 1 ++ rest.drop 1) = (x0 :: xs0).eraseIdx i ++ rest := by
+        rw [List.append_assoc, List.take_append_drop]
+      rw [h1] at hp
+      exact (List.Perm.cons _ hp).trans
+        ((List.Perm.append_right rest (perm_cons_eraseIdx hi)).symm.trans (List.Perm.refl _))
 
 /-- every delivery order is a permutation of the batch sampler's batches: nothing lost, nothing doubled -/
-theorem windowOrders_perm {α} (k : Nat) (xs ys : List α) (h : ys ∈ windowOrders k xs) : ys.Perm xs :=
-  windowOrdersAux_perm k xs.length xs (Nat.le_refl _) ys h
+theorem windowOrders_perm {α} (k : Nat) (hk : 0 < k) (xs ys : List α) (h : ys ∈ windowOrders k xs) :
+    ys.Perm xs := by
+  have := windowOrdersAux_perm xs.length (xs.take k) (xs.drop k)
+    (by rw [List.length_take, List.length_drop]; omega)
+    (by
+      intro e
+      cases xs with
+      | nil => simp
+      | cons a r =>
+        cases k with
+        | zero => omega
+        | succ k => simp at e)
+    ys h
+  rwa [List.take_append_drop] at this
 
 /-- with at least two batches in flight two consecutive batches may arrive swapped -/
 theorem windowOrders_swap {α} (k : Nat) (hk : 2 ≤ k) (p q : α) : [q, p] ∈ windowOrders k [p, q] := by
-  have h2 : min k 2 = 2 := by omega
-  simp [windowOrders, windowOrdersAux, h2, List.range_succ]
+  have h2 : List.take k [p, q] = [p, q] := by
+    rw [List.take_of_length_le]; simpa using hk
+  have h3 : List.drop k [p, q] = [] := by
+    rw [List.drop_eq_nil_iff]; simpa using hk
+  simp only [windowOrders, List.length_cons, List.length_nil, h2, h3]
+  simp only [windowOrdersAux, List.isEmpty_cons, Bool.false_eq_true, if_false, List.mem_flatMap,
+    List.mem_range, List.length_cons, List.length_nil]
+  refine ⟨1, by omega, ?_⟩
+  simp [List.range_succ]
 
 end DirectVerif.Recon
